@@ -46,6 +46,18 @@ CHECKS = {
              "with an undeclared endpoint may or may not be drawn (documented exception; order dependent).",
         technique="Lean 4 induction over the relation fold + node/edge list correspondence with networkx + independent graph spec",
         design="§4.C14"),
+    "C15": dict(
+        text="Lean: (1) syntax safety for arbitrary strings of the two escaping functions the fixed prov_to_dot uses: htmlEscape "
+             "output contains no '<', '>', quote characters and every '&' starts an entity (htmlEscape_no_markup, htmlEscape_amp_ok); "
+             "the body of a quoted DOT string has no unescaped quote and no dangling backslash (dotQuoteBody_ok) — by induction on the "
+             "string; (2) prov_to_dot transcribed as a structure of nodes/edges/clusters with the strings Graphviz's parser obtains; "
+             "c15_one_node_per_element, c15_known_uri_reuses_node, attachAnnotation_spec. The real DOT text is given to Graphviz "
+             "(dot -Tdot_json): acceptance is required for every option combination and direction, and the parsed graph is compared "
+             "with the model and with an independent structural specification.",
+        note=A_COMMON + " Graphviz's parser (not a Lean recogniser) is the judge of DOT validity (A-EXT); which of several prov:label "
+             "values is displayed follows Python's set order and is not compared. The escaping itself needed a fix: commit.",
+        technique="Lean 4 induction proofs on escaping functions + structure correspondence through Graphviz's own parser",
+        design="§4.C15"),
     "C18": dict(
         text="Lean: _id_map is modelled as a separate component and proved to be the URI-indexed view of _records: c18_idmap_append, "
              "c18_coherent_add (one _add_record), and WF (all containers coherent, all references allocated) is preserved by new_record "
